@@ -36,7 +36,7 @@ def mk(ctx, vals):
     return SBytes(vals) if ctx.symbolic else bytes(vals)
 
 
-def o1_roundtrip(ctx, what, hops):
+def o1_roundtrip(ctx, what, hops, name_len=5):
     m = fb()
     macs = []
 
@@ -60,7 +60,7 @@ def o1_roundtrip(ctx, what, hops):
         exp = {"name": None, "pa": None, "data": []}
         chunks = []
         if what == "name+battery":
-            name = blist(ctx.bytes("name", 5))
+            name = blist(ctx.bytes("name", name_len))
             for c in name:
                 ctx.assume(c < 128)  # ASCII: decoded as str
             tx.name = mk(ctx, name)
@@ -310,6 +310,8 @@ def jobs(tier):
     for what in ("name+battery", "pa+temperature", "url", "raw", "reference-encoder"):
         for hops in ((0, 1) if tier == "quick" else (0, 1, 2)):
             out.append(Job("O1-round-trip", o1_roundtrip, dict(what=what, hops=hops), cost=10))
+    for nl in ((0, 1, 10) if tier == "quick" else (0, 1, 2, 3, 4, 6, 7, 8, 9, 10)):  # 10 + battery fills the advertisement
+        out.append(Job("O1-round-trip", o1_roundtrip, dict(what="name+battery", hops=0, name_len=nl), cost=10))
     for L in ((6, 7, 8, 9) if tier == "quick" else (6, 7, 8, 9, 10, 11)):
         out.append(Job("O2-crc-valid-adversarial-structures", o2_valid_adversarial, dict(L=L, freq_idx=L % 3), cost=3 ** min(L - 5, 6)))
     for L in ((6, 7, 8, 9, 10, 11, 12, 13) if tier == "quick" else range(6, 16)):
